@@ -2,6 +2,7 @@
 //! Code: mahf::components::replacement::common::{DiscardOffspring,Generational,Merge,MuPlusLambda,RandomReplacement,KeepBetterAtIndex}::replace (called directly)
 //! Code: mahf::components::replacement::replacement (driver, through a prepared State)
 //! Out: parents/offspring with more than 3 individuals each; unevaluated individuals for the fitness-based operators (their documented precondition)
+//! Reclimit: mahf::state::(registry::)?StateRegistry::<.*>::find(_mut)?::<.*>=2
 //! Assume: individuals carry unique tags (parents 0.., offspring 10..) so multiset containment is checkable by tag; objectives are arbitrary legal f64
 use mahf::components::replacement::{
     DiscardOffspring, Generational, KeepBetterAtIndex, Merge, MuPlusLambda, RandomReplacement, Replacement,
